@@ -10,6 +10,7 @@ from harness.worker import Stream
 OBLIGATIONS = [
     "PgmVerif.C12_extension_sound", "PgmVerif.C12_cpdag_directed_sound", "PgmVerif.C12_class_members", "PgmVerif.isAcyclicG_sound",
     "PgmVerif.C12_adjacent_never_separated", "PgmVerif.C12_parents_separate", "PgmVerif.C12_nonadjacent_separable",
+    "PgmVerif.C12_toDag_acyclic",
 ]
 PARTIAL = ["the graph-theoretic core of skeleton exactness is proved for every DAG (a true edge is never separable; the parents of one end point "
            "separate every non-adjacent pair); that the level-wise loops of the three variants enumerate those parent sets is not modelled; "
@@ -26,7 +27,9 @@ LEVEL_TEXT = ("Kernel-checked on the specification side: a graph accepted by the
               "every member of the enumerated Markov class, and the class contains the ground-truth DAG. For EVERY acyclic graph the "
               "d-separation traversal of the model (proved equal to the textbook definition in C08) reports adjacent nodes as dependent given "
               "every conditioning set, and reports u, v as independent given pa(u) whenever v is a non-adjacent non-descendant of u - so a "
-              "separating set exists for exactly the non-adjacent pairs, which is what makes the PC skeleton phase exact. The implementation is decided by "
+              "separating set exists for exactly the non-adjacent pairs, which is what makes the PC skeleton phase exact; the model of "
+              "PDAG.to_dag returns an acyclic edge set for every partially directed graph on which it succeeds (C12_toDag_acyclic, by an "
+              "invariant over the removal loop). The implementation is decided by "
               "exhaustive differential runs against that spec: skeleton, separating sets (each must d-separate its pair in the Lean "
               "d-separation spec), CPDAG (directed and undirected parts) and DAG output of every PC variant for every ground-truth DAG up to "
               "4/5 nodes under 6 hash seeds, and PDAG.to_dag on all their CPDAGs and random extendable PDAGs (partial: no proof of the "
